@@ -13,25 +13,27 @@
 #include <opm/input/eclipse/Schedule/Well/WListManager.hpp>
 #include <verif.h>
 using namespace Opm;
-#ifndef FORM
-#define FORM 0
+#ifndef CFORM
+#define CFORM 0
 #endif
 static const char* WN[3] = { "P1", "P2", "P3" };
 typedef std::vector<std::string> Toks;
 static Toks cat(std::initializer_list<Toks> parts) { Toks t; for (const auto& p : parts) t.insert(t.end(), p.begin(), p.end()); return t; }
 static Toks form(const Toks& A, const Toks& B, const Toks& C) {
     const Toks AND { "AND" }, OR { "OR" }, L { "(" }, R { ")" };
-    switch (FORM) {
+    switch (CFORM) {
     case 0: return cat({ A, AND, B, OR, C });
     case 1: return cat({ A, OR, B, AND, C });
     case 2: return cat({ L, A, OR, B, R, AND, C });
     case 3: return cat({ A, AND, L, B, OR, C, R });
     case 4: return cat({ A, AND, B, AND, C });
-    default: return cat({ A, OR, B, OR, C });
+    case 5: return cat({ A, OR, B, OR, C });
+    case 6: return cat({ L, C, OR, A, R, AND, B });          // a scalar first in the OR, then AND with a well comparison
+    default: return cat({ L, A, OR, C, R, AND, B });
     }
 }
 static bool truth(bool a, bool b, bool c) {
-    switch (FORM) { case 0: return (a && b) || c; case 1: return a || (b && c); case 2: return (a || b) && c; case 3: return a && (b || c); case 4: return a && b && c; default: return a || b || c; }
+    switch (CFORM) { case 0: return (a && b) || c; case 1: return a || (b && c); case 2: return (a || b) && c; case 3: return a && (b || c); case 4: return a && b && c; case 5: return a || b || c; default: return (c || a) && b; }
 }
 // scalar conditions only: truth value
 extern "C" void h_scalar_conditions(void) {
@@ -60,13 +62,14 @@ extern "C" void h_well_conditions(void) {
         // set algebra: AND = intersection, OR = union; a scalar or false operand contributes no set
         for (int i = 0; i < 3; ++i) {
             bool in;
-            switch (FORM) {
+            switch (CFORM) {
             case 0: in = anyA && anyB && A[i] && B[i]; break;                                                                  // (A and B) or C : the scalar C contributes no set
             case 1: in = A[i] || ((anyB && C) ? B[i] : false); break;                                                           // A or (B and C)
             case 2: in = A[i] || B[i]; break;                                                                                  // (A or B) and C
             case 3: in = anyB ? (A[i] && B[i]) : A[i]; break;                                                                   // A and (B or C) : (B or C) carries B's wells when B holds somewhere, no set otherwise
             case 4: in = A[i] && B[i]; break;
-            default: in = A[i] || B[i]; break;
+            case 5: in = A[i] || B[i]; break;
+            default: in = anyA ? (A[i] && B[i]) : B[i]; break;                                                                  // (C or A) and B, (A or C) and B: a scalar or false operand of the OR contributes no set
             }
             CHECK(r.matches().hasWell(WN[i]) == in);
         }
